@@ -1942,6 +1942,13 @@ TARGETS2 = {
         ("varintDimension.c", "varintDimensionPairEntrySetBit", "dimEntrySetBit"),
         ("varintDimension.c", "varintDimensionPairEntryToggleBit", "dimEntryToggleBit"),
     ],
+    "CExtQ": [
+        ("import", "CExternal", "varintExternal.c:varintExternalLoadFromEncodingLittleEndian_:extLoadLE,"
+                                "varintExternal.c:varintExternalPutFixedWidth:extPutFixedWidth,"
+                                "varintExternal.c:varintExternalGet:extGet"),
+        ("harness/vw_ext.c", "vw_extPutFixedQuick", "extPutFixedQuick"),
+        ("harness/vw_ext.c", "vw_extGetQuick", "extGetQuick"),
+    ],
     "CElias": [
         ("varintElias.c", "floorLog2", "eliasFloorLog2"),
         ("varintElias.c", "varintEliasGammaBits", "eliasGammaBits"),
